@@ -17,6 +17,7 @@ s ::= lower:upper[:step] with optional integer literals (unary minus allowed), s
 """
 import ast
 import os
+import shutil
 import sys
 
 
@@ -178,6 +179,12 @@ def main(argv):
         first, second = strip(fns['_extendFromStrip'])
         centre, count, fb, fc = fan(fns['_extendFromFan'])
     except Reject as e:
+        # fail closed: the committed golden copy becomes the definition again
+        golden = os.path.join(os.path.dirname(os.path.abspath(__file__)), 'golden', 'Strips.v')
+        target = os.path.join(gen, 'Strips.v')
+        if os.path.exists(golden) and (not os.path.exists(target) or open(target).read() != open(golden).read()):
+            os.makedirs(gen, exist_ok=True)
+            shutil.copyfile(golden, target)
         sys.stderr.write('strips translator: source outside the accepted grammar: %s\n' % e)
         return 1
     text = (
